@@ -1,0 +1,58 @@
+//go:build verif
+
+package pdf
+
+import (
+	"unsafe"
+
+	"seehuhn.de/go/pdf/graphics/bitmap"
+	"seehuhn.de/go/pdf/internal/filter/jbig2"
+)
+
+// This file is only compiled with the build tag "verif".  It exposes the
+// JBIG2 segment encoders of internal/filter/jbig2 (to build structured
+// hostile streams) and the pool ledger hook to an external verification
+// harness; it adds no behaviour of its own.
+
+// VerifJBIG2SymbolInstance mirrors jbig2.SymbolInstance.
+type VerifJBIG2SymbolInstance = jbig2.SymbolInstance
+
+// VerifJBIG2SegmentHeader calls jbig2.WriteSegmentHeader.
+func VerifJBIG2SegmentHeader(buf []byte, segNum uint32, segType int, pageAssoc int, refs []uint32, dataLen uint32) []byte {
+	return jbig2.WriteSegmentHeader(buf, segNum, segType, pageAssoc, refs, dataLen)
+}
+
+// VerifJBIG2PageInfo calls jbig2.WritePageInfo.
+func VerifJBIG2PageInfo(buf []byte, width, height int) []byte {
+	return jbig2.WritePageInfo(buf, width, height)
+}
+
+// VerifJBIG2SymbolDict calls jbig2.EncodeSymbolDictSegment.
+func VerifJBIG2SymbolDict(symbols []*bitmap.Bitmap, template int) []byte {
+	return jbig2.EncodeSymbolDictSegment(symbols, template)
+}
+
+// VerifJBIG2GenericRegion calls jbig2.EncodeGenericRegionSegment.
+func VerifJBIG2GenericRegion(bm *bitmap.Bitmap, x, y, template int, combOp bitmap.CombOp, tpgdon, extTemplate bool) []byte {
+	return jbig2.EncodeGenericRegionSegment(bm, x, y, template, combOp, tpgdon, extTemplate)
+}
+
+// VerifJBIG2TextRegion calls jbig2.EncodeTextRegionSegment (arithmetic coder;
+// instances with a Bitmap are refined, SBREFINE=1).
+func VerifJBIG2TextRegion(width, height, x, y int, instances []VerifJBIG2SymbolInstance, symbols []*bitmap.Bitmap,
+	refCorner int, transposed bool, combOp bitmap.CombOp, strips, dsOffset, defPixel int) []byte {
+	return jbig2.EncodeTextRegionSegment(width, height, x, y, instances, symbols, refCorner, transposed, combOp, strips, dsOffset, defPixel)
+}
+
+// VerifJBIG2TextRegionHuffman calls jbig2.EncodeTextRegionSegmentHuffman
+// (SBHUFF=1; instances with a Bitmap are refined, SBREFINE=1).
+func VerifJBIG2TextRegionHuffman(width, height, x, y int, instances []VerifJBIG2SymbolInstance, symbols []*bitmap.Bitmap,
+	refCorner int, transposed bool, combOp bitmap.CombOp, strips, dsOffset, defPixel int) ([]byte, error) {
+	return jbig2.EncodeTextRegionSegmentHuffman(width, height, x, y, instances, symbols, refCorner, transposed, combOp, strips, dsOffset, defPixel)
+}
+
+// VerifJBIG2SetPoolHook installs (or, with nil, removes) the pool ledger
+// observer, see jbig2.VerifPoolHook.
+func VerifJBIG2SetPoolHook(f func(ev byte, id unsafe.Pointer, n, live, peak int)) {
+	jbig2.VerifPoolHook = f
+}
